@@ -698,9 +698,13 @@ def compare_model(ctx, case, obs, drv):
             if m["t"] != g["t"]:
                 ctx.disagreement("attrs.kind", dict(case, var=v["name"], attr=a), m["t"], g["t"])
                 return
-            gv = [[xj(x) for x in vals] for vals in g["v"]]
-            if m["v"] != gv:
-                ctx.disagreement("attrs.value", dict(case, var=v["name"], attr=a), m["v"], gv)
+            # element values are compared after the scalar broadcast: CasADi may simplify a vector expression to a
+            # scalar one ((q + 5*p) + (-q) -> 5*p), which changes the number of stored elements, not their values
+            n = numel(v["dims"])
+            gv = [bcast([xj(x) for x in vals], n) for vals in g["v"]]
+            mvv = [bcast(list(vals), n) for vals in m["v"]]
+            if mvv != gv:
+                ctx.disagreement("attrs.value", dict(case, var=v["name"], attr=a), mvv, gv)
                 return
     byname = {v["name"]: i for i, v in enumerate(case["vars"])}
     lists = [[byname[n] for n in obs["lists"][lst]] for lst in a09.LISTS]
@@ -792,7 +796,12 @@ def search(ctx):
 
 
 def replay(ctx, payload):
-    case = dict(payload["case"])
+    cases = [payload["case"]] if "case" in payload else [d["case"] for d in payload.get("details", []) if d.get("case")]
+    for case in cases:
+        _replay_one(ctx, dict(case))
+
+
+def _replay_one(ctx, case):
     for k in ("text", "var", "attr"):
         case.pop(k, None)
     check_case(ctx, case, ctx.driver("drv_c13"))
